@@ -166,8 +166,8 @@ Proof.
     + destruct (is_kw "array" k) eqn:Ea; [|discriminate].
       destruct l as [|nd' [|[a| |] [|]]]; try discriminate.
       destruct (parse_elemname nd') as [n|] eqn:E; [|discriminate]. destruct (int_tok a) as [z|] eqn:I; [|discriminate].
-      destruct (_ <? _)%Z; [discriminate|]. inversion H; subst; cbn.
-      apply dp_array; auto. now apply parse_elemname_decl.
+      destruct (max_bits <? z)%Z; [discriminate|]. destruct (z <? 1)%Z eqn:Ez; [discriminate|]. inversion H; subst; cbn.
+      apply Z.ltb_ge in Ez. apply dp_array; auto. now apply parse_elemname_decl.
 Qed.
 
 Lemma parse_port_denote ports args p : parse_port ports args = Ok p -> denote_port args p.
@@ -269,20 +269,14 @@ Proof.
   destruct (place _ _ n) as [name|] eqn:Pl; [|discriminate]. inversion H; subst; cbn. clear H.
   exists nd, rest, (nm_orig n). split; auto. split; [now apply parse_elemname_decl|]. cbn.
   split; [eapply place_name; eauto|].
-  destruct rest as [|x rest'].
-  - inversion R; subst; cbn in *. inversion L; subst. split; [constructor|reflexivity].
-  - destruct x as [?|?|[|[k|?|?] vargs]].
-    + inversion R; subst; cbn in *. discriminate.
-    + inversion R; subst; cbn in *. discriminate.
-    + discriminate.
-    + destruct (kweq (lower k) "viewref") eqn:Ek; [|destruct (kweq (lower k) "viewlist"); discriminate].
-      destruct (parse_viewref cx vargs) as [v|] eqn:V; [|discriminate]. inversion R; subst; cbn in *.
-      apply inst_loop_props in L as (ys & -> & Hp & Hv). cbn.
-      rewrite Ek. rewrite (kweq_excl (lower k) "viewref" "property") by (auto; intro X; vm_compute in X; discriminate).
-      split; auto. destruct v as [[li ci] ps]; cbn. exists li, ci. split; auto.
-      apply (parse_viewref_refers F cx vargs (li, ci, ps)); auto.
-    + discriminate.
-    + discriminate.
+  destruct rest as [|x rest']; [discriminate|].
+  destruct x as [?|?|[|[k|?|?] vargs]]; try discriminate.
+  destruct (kweq (lower k) "viewref") eqn:Ek; [|destruct (kweq (lower k) "viewlist"); discriminate].
+  destruct (parse_viewref cx vargs) as [v|] eqn:V; [|discriminate]. inversion R; subst; cbn in *.
+  apply inst_loop_props in L as (ys & -> & Hp & Hv). cbn.
+  rewrite Ek. rewrite (kweq_excl (lower k) "viewref" "property") by (auto; intro X; vm_compute in X; discriminate).
+  split; auto. destruct v as [[li ci] ps]; cbn. exists li, ci. split; auto.
+  apply (parse_viewref_refers F cx vargs (li, ci, ps)); auto.
 Qed.
 
 (* ---- pins ---- *)
@@ -568,42 +562,6 @@ Proof.
   - constructor.
 Qed.
 
-(* ---- the body ---- *)
-Lemma body_sound l : forall libs st cnt r, body libs st cnt l = Ok r ->
-  exists new, fst r = libs ++ new /\ F2acc lib_sound libs (lib_items (upto_design l)) new /\
-    match sel "design" (upto_design l) with
-    | [] => snd r = None
-    | dargs :: _ => exists t, option_map fst (snd r) = Some (fst t) /\ parse_design (fst r) dargs = Ok t
-    end.
-Proof.
-  induction l as [|x l IH]; intros libs st cnt r H; cbn in H.
-  - inversion H; subst; cbn. exists []. rewrite app_nil_r. repeat split; constructor.
-  - destruct x as [?|?|[|[a|?|?] args]]; try discriminate.
-    cbn [upto_design kw_of].
-    destruct (kweq (lower a) "status") eqn:E1.
-    { destruct st; [discriminate|]. destruct (chk_status args); [|discriminate].
-      destruct (IH _ _ _ _ H) as (new & Hn & Hf & Hd). exists new.
-      rewrite (kweq_excl (lower a) "status" "design") by (auto; intro X; vm_compute in X; discriminate).
-      cbn. unfold is_lib_item. cbn.
-      rewrite (kweq_excl (lower a) "status" "library"), (kweq_excl (lower a) "status" "external"), (kweq_excl (lower a) "status" "design")
-        by (auto; intro X; vm_compute in X; discriminate). cbn. auto. }
-    destruct (kweq (lower a) "library" || kweq (lower a) "external") eqn:E2.
-    { destruct (parse_library libs args) as [L|] eqn:PL; [|discriminate].
-      destruct (IH _ _ _ _ H) as (new & Hn & Hf & Hd). exists (L :: new).
-      assert (Ed : kweq (lower a) "design" = false).
-      { apply orb_true_iff in E2 as [E2|E2]; [apply (kweq_excl _ "library")|apply (kweq_excl _ "external")]; auto;
-          intro X; vm_compute in X; discriminate. }
-      rewrite Ed. cbn. unfold is_lib_item. cbn. rewrite E2, Ed. split; [rewrite Hn, <- app_assoc; reflexivity|]. split; auto.
-      constructor; auto. now apply parse_library_sound. }
-    destruct (kweq (lower a) "design") eqn:E3.
-    { destruct (parse_design libs args) as [t|] eqn:PD; [|discriminate]. inversion H; subst; cbn.
-      exists []. rewrite app_nil_r. unfold is_lib_item. cbn. rewrite E2, E3. repeat split; try constructor.
-      exists t. auto. }
-    destruct (kweq (lower a) "comment") eqn:E4; [|destruct (kweq (lower a) "userdata"); discriminate].
-    destruct (chk_comment args); [|discriminate].
-    destruct (IH _ _ _ _ H) as (new & Hn & Hf & Hd). exists new. cbn. unfold is_lib_item. cbn. rewrite E2, E3. auto.
-Qed.
-
 (* ---- assembly ---- *)
 Lemma env_ok_final F lpre L lpost cpre C cpost : libs_good F -> F = lpre ++ L :: lpost ->
   li_cells L = cpre ++ C :: cpost -> env_ok F (mkctx lpre (li_ident L) cpre (ce_ident C) [] (ce_ports C)).
@@ -630,40 +588,103 @@ Proof.
   eapply env_ok_final; eauto.
 Qed.
 
-Lemma parse_design_top libs dargs t : libs_good libs -> parse_design libs dargs = Ok t -> denote_top libs dargs (fst t).
+(* ---- the design construct ---- *)
+Definition denote_top_pre (args : list sexp) (t : nvtop) : Prop :=
+  exists nd k1 x k2 y tl o, args = nd :: SList [k1; Atom x; SList [k2; Atom y]] :: tl /\
+    is_kw "cellref" k1 = true /\ is_kw "libraryref" k2 = true /\
+    decl_nd nd (tp_ident t) o /\ tp_name t = display (tp_ident t) o /\
+    lower (tp_lib t) = lower y /\ lower (tp_cell t) = lower x.
+
+Lemma parse_design_top libs dargs t : parse_design libs dargs = Ok t -> denote_top_pre dargs t.
 Proof.
-  intros HF H. pose proof (parse_design_ok _ _ _ HF H) as HD. unfold parse_design in H.
-  destruct dargs as [|nd [|x tl]]; try discriminate.
-  destruct x as [| |[|[k1|?|?] [|[x|?|?] [|[?|?|[|[k2|?|?] [|[y|?|?] junk]]] more]]]]; try discriminate.
-  destruct (parse_design_name nd) as [n|] eqn:N; [|discriminate].
-  destruct (_ || _); [discriminate|].
+  intro H. unfold parse_design in H.
+  destruct dargs as [|nd [|x0 tl]]; try discriminate.
+  destruct x0 as [| |[|k1 [|cr [|[| |[|k2 [|lr [|]]]] [|]]]]]; try discriminate.
+  destruct (parse_elemname nd) as [n|] eqn:N; [|discriminate].
+  destruct (is_kw "cellref" k1) eqn:K1; [|discriminate]. cbn [negb] in H.
+  destruct (parse_nameref cr) as [x|] eqn:X; [|discriminate]. apply parse_nameref_atom in X as ->.
+  destruct (is_kw "libraryref" k2) eqn:K2; [|discriminate]. cbn [negb] in H.
+  destruct (parse_nameref lr) as [y|] eqn:Y; [|discriminate]. apply parse_nameref_atom in Y as ->.
   destruct (find_lib y libs) as [L|] eqn:FL; [|discriminate].
   destruct (find_cell x (li_cells L)) as [C|] eqn:FC; [|discriminate].
-  destruct more as [|[?|?|?] ?]; try discriminate. inversion H; subst; cbn in *.
+  inversion H; subst; cbn.
   apply find_lib_some in FL as [_ FL]. apply find_cell_some in FC as [_ FC].
-  exists nd, (Atom k1), x, (Atom k2), y, junk, [], tl, (nm_orig n). repeat split; auto.
-  unfold parse_design_name in N. destruct nd as [a|s|[|k [|[a| |] [|[|s|] [|? ?]]]]]; try (now apply parse_elemname_decl).
-  destruct (_ && _); discriminate.
+  exists nd, k1, x, k2, y, tl, (nm_orig n). repeat split; auto. now apply parse_elemname_decl.
+Qed.
+
+Lemma denote_top_final F dargs t : libs_good F -> denote_top_pre dargs t -> top_in F t -> denote_top F dargs t.
+Proof.
+  intros HF (nd & k1 & x & k2 & y & tl & o & E & K1 & K2 & Hd & Hn & Hl & Hc) Hin.
+  exists nd, k1, x, k2, y, tl, o. repeat split; auto. now apply top_in_lookup.
+Qed.
+
+(* ---- the body ---- *)
+Lemma lib_items_app a b : lib_items (a ++ b) = lib_items a ++ lib_items b.
+Proof.
+  induction a as [|x a IH]; cbn; auto. destruct (is_lib_item x); [destruct (kw_of x) as [[? ?]|]|]; cbn; now rewrite IH.
+Qed.
+
+Lemma lib_items_one a args : lib_items [SList (Atom a :: args)] =
+  if kweq (lower a) "library" || kweq (lower a) "external" then [args] else [].
+Proof. cbn. unfold is_lib_item. cbn. destruct (_ || _); reflexivity. Qed.
+
+Definition bsound (pre : list sexp) (s : bst) : Prop :=
+  F2acc lib_sound [] (lib_items pre) (bs_libs s) /\
+  match sel "design" pre with
+  | [] => bs_top s = None
+  | [dargs] => exists t, bs_top s = Some t /\ denote_top_pre dargs t /\ top_in (bs_libs s) t
+  | _ :: _ :: _ => False
+  end.
+
+Lemma body_sound l r : body l = Ok r -> bsound l r.
+Proof.
+  unfold body. intro H.
+  apply (loop_pre body_step false bsound) with (pre := []) in H; auto.
+  - intros pre a args s s' [Hf Hd] Hst. unfold bsound. rewrite lib_items_app, lib_items_one, sel_app, sel_one.
+    unfold body_step in Hst.
+    destruct (kweq (lower a) "status") eqn:E1.
+    { rewrite (kweq_excl (lower a) "status" "library"), (kweq_excl (lower a) "status" "external"), (kweq_excl (lower a) "status" "design")
+        by (auto; intro X; vm_compute in X; discriminate). cbn [orb]. rewrite !app_nil_r.
+      destruct (bs_status s); [discriminate|]. destruct (chk_status args); [|discriminate]. inversion Hst; subst; cbn. auto. }
+    destruct (kweq (lower a) "library" || kweq (lower a) "external") eqn:E2.
+    { assert (Ed : kweq (lower a) "design" = false).
+      { apply orb_true_iff in E2 as [E2|E2]; [apply (kweq_excl _ "library")|apply (kweq_excl _ "external")]; auto;
+          intro X; vm_compute in X; discriminate. }
+      rewrite Ed, app_nil_r.
+      destruct (parse_library (bs_libs s) args) as [L|] eqn:PL; [|discriminate]. inversion Hst; subst; cbn. split.
+      - apply F2acc_snoc; auto. cbn. now apply parse_library_sound.
+      - destruct (sel "design" pre) as [|dargs [|? ?]]; auto.
+        destruct Hd as (t & Ht & Hp & Hin). exists t. repeat split; auto. now apply top_in_app. }
+    rewrite app_nil_r.
+    destruct (kweq (lower a) "design") eqn:E3.
+    { destruct (bs_top s) as [t0|] eqn:T0; [discriminate|].
+      destruct (parse_design (bs_libs s) args) as [t|] eqn:PD; [|discriminate]. inversion Hst; subst; cbn. split; auto.
+      destruct (sel "design" pre) as [|dargs [|? ?]].
+      - cbn. exists t. repeat split; auto; [eapply parse_design_top; eauto|eapply parse_design_ok; eauto].
+      - destruct Hd as (t1 & Ht1 & _). discriminate.
+      - contradiction. }
+    rewrite app_nil_r.
+    destruct (kweq (lower a) "comment") eqn:E4; [|destruct (kweq (lower a) "userdata"); discriminate].
+    destruct (chk_comment args); [|discriminate]. inversion Hst; subst. auto.
+  - intros pre s Hq. unfold bsound in *. now rewrite lib_items_app, sel_app, sel_empty, !app_nil_r.
+  - split; [constructor|reflexivity].
 Qed.
 
 Theorem elab_file_sound_read d n : elab_file d = Ok n -> denote_file_with conn_read d n.
 Proof.
-  unfold elab_file. destruct (elab_file_ext d) as [r|] eqn:E; [|discriminate]. intro H; inversion H; subst; clear H.
-  unfold elab_file_ext in E. destruct (negb (atoms_ascii d)); [discriminate|].
+  unfold elab_file. intro E. destruct (negb (atoms_ascii d)); [discriminate|].
   destruct d as [| |[|e [|nd [|ver [|lvl [|km items]]]]]]; try discriminate.
   destruct (negb _); [discriminate|]. destruct (parse_elemname nd) as [nm|] eqn:N; [|discriminate].
   destruct (chk_int_form _ _ ver); [|discriminate]. destruct (chk_int_form _ _ lvl); [|discriminate].
   destruct (chk_keywordmap km); [|discriminate].
-  destruct (body [] false _ items) as [b|] eqn:B; [|discriminate]. inversion E; subst; cbn. clear E.
-  pose proof (body_ok _ _ _ _ _ libs_good_nil B) as [HG _].
-  apply body_sound in B as (new & Hn & Hf & Hd). cbn in Hn. rewrite <- Hn in Hf.
+  destruct (body items) as [b|] eqn:B; [|discriminate]. inversion E; subst; cbn. clear E.
+  pose proof (body_ok _ _ B) as [HG _].
+  apply body_sound in B as [Hf Hd].
   exists e, nd, ver, lvl, km, items, (nm_orig nm). split; auto. cbn.
   split; [now apply parse_elemname_decl|]. split; auto. split.
   - eapply F2acc_forall2; [exact Hf|]. cbn. intros pre largs L post Heq Hs. eapply lib_sound_denote; eauto.
-  - destruct (sel "design" (upto_design items)) as [|dargs ?].
-    + now rewrite Hd.
-    + destruct Hd as (t & Ht & PD). destruct (snd b) as [tk|]; [|discriminate]. cbn in *. inversion Ht; subst.
-      exists (fst t). split; [now rewrite H0|]. eapply parse_design_top; eauto.
+  - destruct (sel "design" items) as [|dargs [|? ?]]; auto.
+    destruct Hd as (t & Ht & Hp & Hin). exists t. split; auto. now apply denote_top_final.
 Qed.
 
 (* ---- from what the reader does with the nets to their meaning, on supported documents ---- *)
